@@ -566,7 +566,15 @@ class FileCache:
         filepaths = [self._cache_file_path(uri) for uri in uris]
 
         # for all URI's not in cache
-        if cache_misses := self.get_cache_misses(uris, directives):
+        cache_misses = self.get_cache_misses(uris, directives)
+
+        # Touch the cache hits to indicate we recently used them (last to be evicted).
+        missed_filepaths = [cache_miss.filepath for cache_miss in cache_misses]
+        for filepath in filepaths:
+            if filepath not in missed_filepaths and os.path.exists(filepath):
+                Path(filepath).touch()
+
+        if cache_misses:
             was_succesfully_downloaded = _download_from_resources(
                 cache_misses,
                 self.resources,
